@@ -406,7 +406,7 @@ impl TypedStmt {
                 let mut collection = env.get(identifier).unwrap();
                 let mut accessed = vec![];
                 enum Assign {
-                    Array(Vec<usize>, usize, Vec<usize>),
+                    Array(Vec<usize>, usize, usize, Vec<usize>),
                     Tuple(Vec<usize>, usize, usize),
                 }
                 for (access, _) in accessors {
@@ -467,7 +467,12 @@ impl TypedStmt {
                                 // an element of a valid size (even though it will not be used)
                                 collection = vec![0; elem_bits]
                             }
-                            accessed.push(Assign::Array(array_before_access, elem_bits, index));
+                            accessed.push(Assign::Array(
+                                array_before_access,
+                                elem_bits,
+                                num_elems,
+                                index,
+                            ));
                         }
                         Accessor::TupleAccess { tuple_ty, index } => {
                             let tuple_before_access = collection.clone();
@@ -530,8 +535,7 @@ impl TypedStmt {
                 }
                 for assign in accessed.into_iter().rev() {
                     match assign {
-                        Assign::Array(mut array, elem_bits, mut index) => {
-                            let size = array.len() / elem_bits;
+                        Assign::Array(mut array, elem_bits, size, mut index) => {
                             let index_bits = Type::Unsigned(UnsignedNumType::Usize)
                                 .size_in_bits_for_defs(prg, circuit.const_sizes());
                             extend_to_bits(
@@ -592,24 +596,23 @@ impl TypedStmt {
                 vec![]
             }
             StmtEnum::ForEachLoop(pattern, array, body) => {
-                let (elem_in_bits, _) = array
+                let (elem_in_bits, num_elems) = array
                     .ty
                     .unwrap_array_size(prg, circuit.const_sizes())
                     .expect("Found a non-array value in an array access expr");
                 let array = array.compile(prg, env, circuit);
 
-                let mut i = 0;
-                while i < array.len() {
+                // (elements of a type without bits, such as `()`, still count as iterations)
+                for i in 0..num_elems {
                     // the bindings of one iteration (loop variable, `let`s of the body) end with it
                     env.push();
-                    let binding = &array[i..i + elem_in_bits];
+                    let binding = &array[i * elem_in_bits..(i + 1) * elem_in_bits];
                     pattern.compile(binding, prg, env, circuit);
 
                     for stmt in body {
                         stmt.compile(prg, env, circuit);
                     }
                     env.pop();
-                    i += elem_in_bits;
                 }
                 vec![]
             }
